@@ -6,7 +6,7 @@ ID = "C02"
 MODULES = ["IoraModel.Props.C02"]
 LEANCHECK = ["IoraModel.Model.LifecycleCore", "IoraModel.Model.EngineLifecycle", "IoraModel.Model.CloseFanout", "IoraModel.Model.LifecycleSites",
              "IoraModel.Lemmas.LifecycleCore", "IoraModel.Lemmas.LifecycleInv", "IoraModel.Lemmas.EngineLifecycle", "IoraModel.Lemmas.EngineSteps", "IoraModel.Lemmas.EngineStale",
-             "IoraModel.Lemmas.EngineFlags", "IoraModel.Lemmas.CloseFanout", "IoraModel.Model.CloseDeliver", "IoraModel.Lemmas.CloseDeliver", "IoraModel.Lemmas.CloseDeliverCompose",
+             "IoraModel.Lemmas.EngineFlags", "IoraModel.Lemmas.EngineCloseReq", "IoraModel.Model.FdTags", "IoraModel.Lemmas.FdTags", "IoraModel.Lemmas.CloseFanout", "IoraModel.Model.CloseDeliver", "IoraModel.Lemmas.CloseDeliver", "IoraModel.Lemmas.CloseDeliverCompose",
              "IoraModel.Props.C02"]
 OBLIGATIONS = [
     {"id": "C02_sites_tcp", "theorem": "Iora.C02.closeSites_covered_tcp", "kind": "proved",
@@ -18,6 +18,15 @@ OBLIGATIONS = [
     {"id": "C02_skeletons", "theorem": "Iora.C02.skeletons_conform", "kind": "proved",
      "statement": "loop / dispatch / drain / connect / enqueue call orders, the epoll mask of a new connect (IN|OUT), the updateInterest formula (connectPending keeps OUT) and the "
                   "Transport close-handler / observe / unobserve / setSessionData call orders WITH their lock acquisitions are the ones the model assumes"},
+    {"id": "C02_api_skeletons", "theorem": "Iora.C02.api_skeletons_conform", "kind": "proved",
+     "statement": "translator: close(sid) of both engines is exactly `return enqueue(Close sid)`; the three TimerService handlers are exactly one enqueue of a Close with the "
+                  "matching CloseOrigin; start() re-opens the queue and spawns the loop without touching session maps or the id counter; `_nextSessionId` has no textual use besides "
+                  "its declaration (initial value = the model's) and the post-increments of the site table (no store / assignment: no id reuse across restart)"},
+    {"id": "C02_peer_erase", "theorem": "Iora.C02.udp_peer_erase_guarded", "kind": "proved",
+     "statement": "translator: both _peerIndex.erase sites of UdpEngine are guarded by `entry maps to the closing session` (F17) - the flags the driver instantiates the model with"},
+    {"id": "C02_T2_close_req", "theorem": "Iora.C02.T2_close_request_honoured", "kind": "proved",
+     "statement": "an accepted close() request is honoured: for every history is1, id seen by then, close(sid) while the queue accepts commands, and every continuation is2 "
+                  "(API calls, timers, I/O events, faults, stop, restart) after which the I/O thread has no command left, the id has its close notification"},
     {"id": "C02_atomics", "theorem": "Iora.C02.atomics_and_callback_copies", "kind": "proved",
      "statement": "translator: _nextSessionId is std::atomic<SessionId> in both engines; every direct closeCb(...) call site has its own locked copy of _cbs.onClose"},
     {"id": "C02_reach", "theorem": "Iora.C02.reachable", "kind": "proved",
@@ -50,26 +59,41 @@ OBLIGATIONS = [
     {"id": "C02_T5_order", "theorem": "Iora.C02.T5_observers_registration_order", "kind": "proved",
      "statement": "for every observe/unobserve/setSessionData/close history the observer list is strictly increasing in id (= registration order, each once) and agrees with the index"},
     {"id": "C02_deliver_tie", "theorem": "Iora.C02.delivery_skeletons_conform", "kind": "proved",
-     "statement": "translator: step 6 of the Transport close handler and the entry of Transport::setReadMode are statement by statement what Model/CloseDeliver.lean mirrors; "
-                  "readModes.erase(sid) is unconditional (seed C02-c) and setReadMode is vacuous (returns true, no effect) for a closed tombstone before touching readModes (repair FC02a)"},
+     "statement": "translator: the syncMutex block of the Transport close handler and the entry of Transport::setReadMode are statement by statement what Model/CloseDeliver.lean mirrors; "
+                  "readModes.erase(sid) is unconditional (seed C02-c), setReadMode is vacuous (returns true, no effect) for a closed tombstone before touching readModes (repair FC02a), "
+                  "and the handler runs that block BEFORE the global close callback and the observers (closeMarksBeforeCallbacks = true, repair FC03c)"},
     {"id": "C02_deliver_variant", "theorem": "Iora.C02.delivery_variant_sound", "kind": "proved",
-     "statement": "the model instance the lockstep driver runs (variant flags = the Gen facts) is the sound variant the T3 Transport theorems are about"},
+     "statement": "the model instance the lockstep driver runs (three variant flags = the Gen facts, incl. the handler order) is the sound variant the T3 Transport theorems are about"},
     {"id": "C02_T3_transport", "theorem": "Iora.C02.T3_no_delivery_after_close_transport", "kind": "proved",
-     "statement": "Transport level: for every sequential history of engine callbacks (accept/connect/data/close, any ids and payloads) and application calls (setReadMode to any mode, "
-                  "receiveSync of any length, on open, closed or unknown ids) in which the engine honours `nothing after its close` (T3a), no accept/connect/data callback for an id "
-                  "follows the run of its close handler - the buffered tail of a Sync/Disabled session is never flushed after the close"},
+     "statement": "Transport level, repaired handler order (marked closed BEFORE the close callbacks): for every history of engine callbacks (accept/connect/data, and the close handler as its "
+                  "two halves closeMark / closeCbs; any ids and payloads) and complete application calls (setReadMode to any mode, receiveSync of any length, on open, closed or unknown ids - "
+                  "ALSO between the two halves of a handler run, i.e. on another thread while the close callbacks run) in which the engine honours `nothing after its close` (T3a), no "
+                  "accept/connect/data callback for an id follows the start of its close callbacks - the buffered tail of a Sync/Disabled session is never flushed during or after the close"},
     {"id": "C02_T3_end_to_end", "theorem": "Iora.C02.T3_no_delivery_after_close_end_to_end", "kind": "proved",
-     "statement": "engine o Transport: for every engine (TCP/UDP), config and engine history, and every sequential Transport history whose engine-originated ops are in order the "
-                  "callbacks of that engine history (any payloads, any setReadMode/receiveSync calls in between), no accept/connect/data callback follows the close handler of its id - "
-                  "the engine contract is discharged by T3a, no hypothesis about the engine is left"},
+     "statement": "engine o Transport: for every engine (TCP/UDP), config and engine history, and every Transport history (handler runs in the repaired order) whose engine-originated ops are "
+                  "in order the callbacks of that engine history (the FIRST half of a handler run is the engine's close event, the other half maps to nothing; any payloads, any "
+                  "setReadMode/receiveSync calls in between, also inside a handler run), no accept/connect/data callback follows the close callbacks of its id - no hypothesis about the engine is left"},
     {"id": "C02_T3_transport_state", "theorem": "Iora.C02.T3_closed_ids_cannot_flush", "kind": "proved",
-     "statement": "state form: after every such history a closed id has no read mode and a closed tombstone (setReadMode leaves it alone), or nothing buffered at all"},
+     "statement": "state form: after every such history an id whose close callbacks have started has no read mode and a closed tombstone (setReadMode leaves it alone), or nothing buffered at all"},
+    {"id": "C02_T3_window_refuted", "theorem": "Iora.C02.T3_window_refuted", "kind": "refuted",
+     "statement": "the same statement for the OLD handler order (close callbacks first, closed mark / tombstone / readModes.erase afterwards) is FALSE: witness setReadMode(5,Sync); data aa bb; "
+                  "closeCbs 5; setReadMode(5,Async) on another thread; closeMark 5 - the data callback follows the close callback (review finding F2; repair FC03c removes the order)"},
+    {"id": "C02_T3_window_partial", "theorem": "Iora.C02.T3_window_partial", "kind": "proved",
+     "statement": "whatever the handler order: if no op stands inside a window (at every op every id whose close callbacks have started has been marked closed, unless the op is that mark - "
+                  "for the old order: the two halves of each handler run are adjacent, the former sequential model), nothing is delivered after the close"},
     {"id": "C02_T6", "theorem": "Iora.C02.T6_gauge", "kind": "proved",
      "statement": "sessionsCurrent = number of non-closed table entries after every history; announced open sessions are counted; 0 after the drain"},
     {"id": "C02_nostale", "theorem": "Iora.C02.no_dangling_session_access", "kind": "proved",
      "statement": "no history makes a handler touch a session that has been erased from the table (the model's `stale` flag is never set)"},
     {"id": "C02_restart_tie", "theorem": "Iora.C02.drainErasesTags", "kind": "proved",
      "statement": "translator: the shutdown drain erases the fd tag of every session it frees (restart starts from empty maps; F35)"},
+    {"id": "C02_fd_tags", "theorem": "Iora.C02.fd_tags_point_at_live_owner", "kind": "proved",
+     "statement": "fd reuse: for every history of session creations on fd numbers the kernel hands out (never a number still open), closeNows and shutdown drains (+ restarts), the "
+                  "session handleFdEvent dispatches an event on fd to is in the map, not closed and owns exactly that fd; model instance defined from the fact drainErasesTags"},
+    {"id": "C02_fd_tags_cover", "theorem": "Iora.C02.fd_tags_cover_open_sessions", "kind": "proved",
+     "statement": "every open session is tagged under its own fd (events of an open session reach it)"},
+    {"id": "C02_F35_refuted", "theorem": "Iora.C02.F35_refuted", "kind": "refuted",
+     "statement": "the variant without the tag erase in the drain (code before repair F35) breaks it: session 1 on fd 5, drain, restart, session 2 on fd 5 is dispatched to freed session 1"},
     {"id": "C02_udp_index", "theorem": "Iora.C02.udp_index_points_at_live_sessions", "kind": "proved",
      "statement": "the UDP peer index only points at live announced sessions of that peer"},
 ]
@@ -122,10 +146,14 @@ def gen_tcp_script(rng, idx):
                                    ("getaddrinfo", "FAIL")] + ([("SSL_set1_host", "x"), ("SSL_read", "x"), ("SSL_write", "x"), ("SSL_write", "EAGAIN")] if tls else []))
             ops.append("tcp inject %s %s %d" % (fn, code, rng.choice([0, 0, 1])))
             if fn == "getaddrinfo" and nsess < 12:
+                if rng.chance(1, 3):
+                    ops[-1] = "tcp inject pthread_create EAGAIN"     # the resolver thread cannot be created (FC02b)
                 ops.append("tcp connect nameP0")
                 nsess += 1
+                if rng.chance(1, 2):
+                    ops.append("tcp close ~%d" % (nsess - 1))        # close() right behind its connect() (F3)
         elif k < 87 and tls:
-            ops.append("tcp hookfail %s" % rng.choice(["hsBefore", "hsAfter", "read", "write"]))
+            ops.append("tcp hookfail %s" % rng.choice(["hsBefore", "hsAfter", "hsAfterOk", "read", "write"]))
         elif k < 87 and nsess < 12 and rng.chance(1, 2):
             # the pending-connect window: the immediate check and/or the first writable event still see ENOTCONN, payload is on its way
             ops += ["tcp inject getpeername ENOTCONN", "tcp connect P0", "tcp poll"]
@@ -300,10 +328,72 @@ FIXED_CASES += [
     {"cat": "tcp-stepped", "id": "data-with-connect-completion-lt", "ops": ["tcp reset et=0", "peer listen", "tcp inject getpeername ENOTCONN", "tcp connect P0", "tcp poll", "tcp send ~0:8", "tcp poll", "peer accept 0",
                                                                              "peer send 0 5", "tcp poll", "tcp poll", "tcp end"]},
 ]
+FIXED_CASES += [
+    # FC02b witness: the resolver thread of a connect BY NAME cannot be created (std::async throws std::system_error): the id connect()
+    # returned must get its close (unrepaired: onError only, the id is never closed - not even by the orderly stop)
+    {"cat": "tcp-stepped", "id": "FC02b-resolver-thread", "ops": ["tcp reset", "peer listen", "tcp inject pthread_create EAGAIN", "tcp connect nameP0", "tcp poll",
+                                                                   "tcp connect nameP0", "tcp poll", "tcp end"]},
+    # F3 / seed C04-d: close() right behind connect(), both still queued: the Close finds the session its Connect created
+    {"cat": "tcp-stepped", "id": "close-behind-connect-tcp", "ops": ["tcp reset", "peer listen", "tcp connect P0", "tcp close ~0", "tcp poll", "tcp end"]},
+    {"cat": "udp-stepped", "id": "close-behind-connect-udp", "ops": ["udp reset", "peer udp", "udp connect P0", "udp close ~0", "udp poll", "udp via 0:P0", "udp close ~1", "udp poll", "udp end"]},
+    # review F5: the close sites no case reached
+    {"cat": "tcp-stepped", "id": "site-evSoErr", "ops": ["tcp reset", "peer listen", "tcp inject getpeername ENOTCONN", "tcp connect P0", "tcp poll",
+                                                          "tcp inject so_error ECONNRESET 1", "tcp ev ~0 o", "tcp poll", "tcp end"]},
+    {"cat": "tcp-stepped", "id": "site-evGsoFail", "ops": ["tcp reset", "peer listen", "tcp inject getpeername ENOTCONN", "tcp connect P0", "tcp poll",
+                                                            "tcp inject so_error FAIL 1", "tcp ev ~0 o", "tcp poll", "tcp end"]},
+    {"cat": "tcp-stepped", "id": "site-evPeerFail", "ops": ["tcp reset", "peer listen", "tcp inject getpeername ENOTCONN", "tcp connect P0", "tcp poll",
+                                                             "tcp inject getpeername ECONNREFUSED", "tcp ev ~0 o", "tcp poll", "tcp end"]},
+    {"cat": "tcp-stepped", "id": "site-sendErr", "ops": ["tcp reset mwq=8", "peer listen", "tcp connect P0", "tcp poll", "peer accept 0", "tcp poll", "tcp inject send EAGAIN", "tcp send ~0:10",
+                                                          "tcp poll", "tcp inject send EPIPE", "tcp ev ~0 o", "tcp poll", "tcp end"]},
+    {"cat": "tcp-stepped", "id": "site-wrHook", "ops": ["tcp reset mwq=8 tls=1 nl=1 ntl=1", "tcp connect E1t", "tcp poll", "tcp poll", "tcp poll", "tcp poll", "tcp poll",
+                                                         "tcp inject SSL_write EAGAIN", "tcp send ~0:20", "tcp poll", "tcp hookfail write", "tcp ev ~0 o", "tcp poll", "tcp poll", "tcp end"]},
+    {"cat": "tcp-stepped", "id": "site-hsHookAfterOk", "ops": ["tcp reset tls=1 nl=1 ntl=1", "tcp hookfail hsAfterOk", "tcp connect E1t", "tcp poll", "tcp poll", "tcp poll", "tcp poll",
+                                                                "tcp poll", "tcp poll", "tcp connect E1t", "tcp poll", "tcp poll", "tcp poll", "tcp poll", "tcp poll", "tcp end"]},
+    {"cat": "udp-stepped", "id": "site-ucRecvErr", "ops": ["udp reset", "peer udp", "udp connect P0", "udp poll", "udp inject recv ECONNREFUSED", "udp ev ~0 i", "udp poll", "udp end"]},
+    {"cat": "udp-stepped", "id": "site-usBackpressure", "ops": ["udp reset mwq=1", "peer udp", "udp connect P0", "udp poll", "udp inject send EAGAIN", "udp inject send EAGAIN",
+                                                                 "udp send ~0:4", "udp send ~0:4", "udp poll", "udp end"]},
+]
+FIXED_CASES += [
+    # every close site of both tables is reached by a FIXED case (the reach check must not depend on what a seed happens to generate)
+    {"cat": "tcp-stepped", "id": "site-evSoErrEarly", "ops": ["tcp reset", "peer listen", "tcp connect P0", "tcp poll", "peer accept 0", "tcp poll", "tcp inject so_error ECONNRESET", "tcp ev ~0 o", "tcp poll", "tcp end"]},
+    {"cat": "tcp-stepped", "id": "site-procClose-handshakeTimeout", "ops": ["tcp reset tls=1 nl=1 ntl=1", "tcp connect E1t", "tcp poll", "tcp timer ~0:handshake", "tcp poll", "tcp poll", "tcp end"]},
+    {"cat": "tcp-stepped", "id": "site-recvErr", "ops": ["tcp reset", "peer listen", "tcp connect P0", "tcp poll", "peer accept 0", "tcp poll", "tcp inject recv ECONNRESET", "tcp ev ~0 i", "tcp poll", "tcp end"]},
+    {"cat": "tcp-stepped", "id": "site-dsSendErr", "ops": ["tcp reset", "peer listen", "tcp connect P0", "tcp poll", "peer accept 0", "tcp poll", "tcp inject send EPIPE", "tcp send ~0:10", "tcp poll", "tcp end"]},
+    {"cat": "udp-stepped", "id": "site-udp-connect-failures", "ops": ["udp reset", "peer udp", "udp inject getaddrinfo FAIL", "udp connect P0", "udp poll", "udp inject socket EMFILE", "udp connect P0", "udp poll",
+                                                                       "udp via 0:bad", "udp poll", "udp inject getsockname FAIL", "udp via 0:P0", "udp poll", "udp inject getaddrinfo FAIL", "udp via 0:P0", "udp poll", "udp end"]},
+    {"cat": "udp-stepped", "id": "site-vCap", "ops": ["udp reset maxs=1", "peer udp", "peer udp", "udp connect P0", "udp poll", "udp via 0:P1", "udp poll", "udp end"]},
+    {"cat": "udp-stepped", "id": "site-udp-gc", "ops": ["udp reset idle=5", "peer udp", "udp connect P0", "udp poll", "udp clock 6000", "udp gc", "udp gc", "udp end"]},
+    {"cat": "udp-stepped", "id": "site-usSendErr", "ops": ["udp reset", "peer udp", "udp connect P0", "udp poll", "udp inject send EPIPE", "udp send ~0:4", "udp poll", "udp end"]},
+    {"cat": "udp-stepped", "id": "site-ucWriteErr", "ops": ["udp reset mwq=8", "peer udp", "udp connect P0", "udp poll", "udp inject send EAGAIN", "udp send ~0:4", "udp poll", "udp inject send EPIPE", "udp ev ~0 o", "udp poll", "udp end"]},
+    {"cat": "udp-stepped", "id": "site-usPeerSendErr", "ops": ["udp reset", "peer udp", "peer usend 0 0 4", "udp poll", "udp inject sendto EPIPE", "udp send ~0:4", "udp poll", "udp end"]},
+]
+FIXED_CASES += [
+    # review F7 / mutant C: an id returned by connectSync is an ordinary session of the application: its close reaches the global callback,
+    # the observers and the cleanup (a pendingConnects entry left behind would swallow it)
+    {"cat": "fanout", "id": "connectsync-id-gets-its-close", "ops": ["fan reset 1", "fan csync 7", "fan observe 7", "fan setdata 7 3", "fan csync 8", "fan close 7", "fan tclose 8", "fan close 7"]},
+    {"cat": "fanout", "id": "connectsync-id-observer-only", "ops": ["fan reset 0", "fan csync 5", "fan observe 5", "fan observe 5", "fan close 5"]},
+]
+# close sites of the model that no public-API history can reach (admitted; see not_proved)
+ADMITTED_UNREACHED = {"tcp": set(), "udp": {"usListenerGone"}}
 SLOW_CASE = {"cat": "tcp-stepped", "id": "dns-timeout", "ops": ["tcp reset", "peer listen", "tcp inject getaddrinfo SLOW", "tcp connect nameP0", "tcp poll", "tcp end"]}
 
 
 # ------------------------------------------------------------------ fan-out histories (lockstep)
+WINDOW_ACTS = ("tmode", "trecv", "mode", "recv")     # setReadMode / receiveSync scripted INSIDE a close callback (t* = on a helper thread)
+FIXED_CASES += [
+    # the window of review finding F2 / repair FC03c: a complete setReadMode(Async) of another thread while the close callbacks run
+    {"cat": "fanout", "id": "window-global-sync", "ops": ["fan reset 1 1 1048576 1024", "fan connect 1", "fan mode 1 s", "fan data 1 aabb", "fan inside G tmode 1 a",
+                                                          "fan close 1", "fan recv 1 8", "fan recv 1 8"]},
+    {"cat": "fanout", "id": "window-observer-disabled", "ops": ["fan reset 0 1 1048576 1024", "fan accept 2", "fan observe 2", "fan observe 2", "fan mode 2 s", "fan data 2 01",
+                                                                "fan mode 2 d", "fan inside O2 tmode 2 a", "fan inside O1 trecv 2 0", "fan close 2", "fan mode 2 a", "fan recv 2 8"]},
+    {"cat": "fanout", "id": "window-io-thread-refused", "ops": ["fan reset 1 1 1048576 1024", "fan observe 1", "fan mode 1 s", "fan data 1 0102", "fan inside G mode 1 a",
+                                                                "fan inside O1 recv 1 4", "fan inside G trecv 1 1", "fan close 1", "fan recv 1 8", "fan recv 1 8"]},
+    {"cat": "fanout", "id": "window-no-switch", "ops": ["fan reset 1 1 1048576 1024 0", "fan mode 1 s", "fan data 1 aa", "fan inside G tmode 1 a", "fan close 1", "fan mode 1 s", "fan recv 1 8"]},
+    # the public Transport::close(sid): forwarded to the engine, no local effect; the close that follows reaches global + observers + cleanup
+    {"cat": "fanout", "id": "public-close", "ops": ["fan reset 1", "fan observe 1", "fan observe 1", "fan setdata 1 7", "fan observe 2", "fan tclose 1", "fan tclose 1", "fan tclose 2"]},
+]
+
+
 def gen_fan_case(rng, idx):
     ops = ["fan reset %d" % (0 if rng.chance(1, 5) else 1)]
     nobs = 0
@@ -325,8 +415,12 @@ def gen_fan_case(rng, idx):
         elif k < 78:
             # an action run from INSIDE a callback: the global close callback, observer n, or the cleanup of tag t
             where = rng.choice(["G", "G", "O%d" % rng.range(1, max(nobs, 1) + 1), "O%d" % rng.range(1, max(nobs, 1) + 1), "C%d" % rng.range(1, max(tags, 1))])
-            a = rng.below(4)
-            if a == 0:
+            a = rng.below(5)
+            if a == 4:
+                # setReadMode / receiveSync from inside the callback: on the I/O thread itself (refused) or on a helper thread
+                act = rng.choice(["mode %d %s" % (sid, rng.choice("asd")), "recv %d %d" % (sid, rng.below(3)),
+                                  "tmode %d %s" % (sid, rng.choice("asd")), "trecv %d %d" % (sid, rng.below(3))])
+            elif a == 0:
                 # the observer numbering is by call order: an observe inside a callback takes the next number when it RUNS
                 act = "observe %d" % sid
             elif a == 1:
@@ -336,9 +430,14 @@ def gen_fan_case(rng, idx):
                 act = "%s %d %d" % (rng.choice(["setdata", "setdatanc"]), sid, tags)
             ops.append("fan inside %s %s" % (where, act))
         else:
-            ops.append("fan close %d" % sid)
+            ops.append("fan %s %d" % ("tclose" if rng.chance(1, 3) else "close", sid))
+        if len(sids) < 6 and rng.chance(1, 12):
+            # an id the application obtained from connectSync (review F7): observed / given data / closed like any other afterwards
+            ns = len(sids) + 1
+            ops.append("fan csync %d" % ns)
+            sids.append(ns)
     for sid in sids:
-        ops.append("fan close %d" % sid)
+        ops.append("fan %s %d" % ("tclose" if rng.chance(1, 3) else "close", sid))
         if rng.chance(1, 3):
             ops.append("fan close %d" % sid)       # a second close must not re-notify anybody
     return {"cat": "fanout", "ops": ops, "id": "fan%d" % idx}
@@ -357,9 +456,35 @@ def gen_deliver_case(rng, idx):
     maxbuf = rng.choice([6, 16, 1048576, 1048576])
     gcthr = rng.choice([1, 2, 3, 1024, 1024])
     ops = ["fan reset %d %d %d %d" % (glob, dcb, maxbuf, gcthr)]
+    if rng.chance(1, 12):
+        ops[0] += " 0"          # allowReadModeSwitch = false: every setReadMode is refused (returns false), nothing is ever buffered
     sids = [1, 2, 3, 4, 5, 6]
     closed = set()
     announced = set()
+    nobs = [0]
+    obs_of = {}             # sid -> numbers of the observers registered since its last close
+
+    def observe(sid):
+        ops.append("fan observe %d" % sid)
+        nobs[0] += 1
+        obs_of.setdefault(sid, []).append(nobs[0])
+
+    def window(sid):
+        # complete application calls of ANOTHER thread while the close callbacks of `sid` run (helper thread inside the callback)
+        wheres = (["G"] if glob else []) + ["O%d" % n for n in obs_of.get(sid, [])]
+        if not wheres:
+            return
+        for _ in range(rng.choice([1, 1, 1, 2, 3])):
+            k = rng.below(10)
+            w = rng.choice(wheres)
+            if k < 6:
+                ops.append("fan inside %s tmode %d %s" % (w, sid, rng.choice("aaaasd")))
+            elif k < 8:
+                ops.append("fan inside %s trecv %d %d" % (w, sid, rng.choice([0, 1, 2, 64])))
+            elif k < 9:
+                ops.append("fan inside %s tmode %d a" % (w, rng.choice(sids)))
+            else:
+                ops.append("fan inside %s %s" % (w, rng.choice(["mode %d a" % sid, "recv %d 1" % sid])))
 
     def payload():
         n = rng.choice([0, 1, 1, 2, 3, 5, 8]) if rng.chance(9, 10) else rng.range(6, 20)
@@ -369,9 +494,12 @@ def gen_deliver_case(rng, idx):
         if sid not in closed:
             ops.append("fan data %d %s" % (sid, payload()))
 
-    def close(sid):
-        ops.append("fan close %d" % sid)
+    def close(sid, win=None):
+        if sid not in closed and (rng.chance(1, 3) if win is None else win):
+            window(sid)
+        ops.append("fan %s %d" % ("tclose" if rng.chance(1, 5) else "close", sid))
         closed.add(sid)
+        obs_of.pop(sid, None)
 
     def tail_pattern(sid):
         # leave bytes in the buffer at close time, then switch modes / read late
@@ -381,7 +509,7 @@ def gen_deliver_case(rng, idx):
             ops.append("fan %s %d" % (rng.choice(["accept", "connect"]), sid))
             announced.add(sid)
         if not glob or rng.chance(1, 2):
-            ops.append("fan observe %d" % sid)
+            observe(sid)
         ops.append("fan mode %d s" % sid)
         for _ in range(rng.range(1, 4)):
             engine_data(sid)
@@ -390,7 +518,7 @@ def gen_deliver_case(rng, idx):
         if rng.chance(1, 4):
             ops.append("fan mode %d d" % sid)
             engine_data(sid)
-        close(sid)
+        close(sid, win=rng.chance(2, 3))
         for _ in range(rng.range(1, 5)):
             k = rng.below(10)
             if k < 6:
@@ -433,7 +561,7 @@ def gen_deliver_case(rng, idx):
         elif k < 76:
             ops.append("fan recv %d %d" % (rng.choice(sids + [9]), rng.choice([0, 1, 1, 2, 3, 64])))
         elif k < 84:
-            ops.append("fan observe %d" % sid)
+            observe(sid)
         elif k < 92:
             ops.append("fan setdata %d %d" % (sid, rng.range(1, 50)))
         else:
@@ -452,7 +580,10 @@ def gen_deliver_case(rng, idx):
 def deliver_monitor(c, impl):
     """T3 at the Transport level, on the implementation's output alone: once a close callback (global `G<sid>` or observer `O<sid>.<n>`) has been seen for an id,
     no data (`D<sid>:<hex>`), connect (`N<sid>`) or accept (`A<sid>`) callback for that id may follow - unless the INPUT itself breaks the engine contract
-    (an engine data/connect/accept op for an id the engine has already closed; the generator never does that)."""
+    (an engine data/connect/accept op for an id the engine has already closed; the generator never does that).
+    The tokens of ONE answer line are in callback order: a `D<sid>:..` that follows `G<sid>` / `O<sid>.n` on the line of the close itself is a delivery INSIDE the
+    close handler - a setReadMode(Async) of another thread (scripted `fan inside <G|O<n>> tmode ..`) flushed the tail while / after the close callbacks ran
+    (review finding F2, repair FC03c)."""
     bad = []
     closed_cb = set()       # ids whose close callback the application has seen
     eng_closed = set()      # ids the (scripted) engine has closed
@@ -460,6 +591,7 @@ def deliver_monitor(c, impl):
         t = op.split()[1:]
         if not t or t[0] == "inside" or t[0] == "getdata":
             continue
+        in_handler = t[0] in ("close", "tclose")
         excused = t[0] in ("data", "connect", "accept") and int(t[1]) in eng_closed
         for ev in got.split(","):
             m = re.match(r"^(?:D(\d+):[0-9a-f]*|N(\d+)|A(\d+))$", ev)
@@ -467,16 +599,47 @@ def deliver_monitor(c, impl):
                 sid = int(m.group(1) or m.group(2) or m.group(3))
                 if sid in closed_cb and not excused:
                     kind = "data" if ev[0] == "D" else "connect" if ev[0] == "N" else "accept"
-                    bad.append("T3 (Transport): `%s` invoked the %s callback for session %d (`%s`) after its close callback had run" % (op, kind, sid, ev))
+                    if in_handler:
+                        bad.append("T3 (Transport): during `%s` the %s callback was invoked for session %d (`%s`) AFTER its close callback (`%s`): a call made on another "
+                                   "thread while the close callbacks ran was served as if the session were open (the handler had not yet marked it closed)" %
+                                   (op, kind, sid, ev, got))
+                    else:
+                        bad.append("T3 (Transport): `%s` invoked the %s callback for session %d (`%s`) after its close callback had run" % (op, kind, sid, ev))
                 continue
             m = re.match(r"^(?:G(\d+)|O(\d+)\.\d+)$", ev)
             if m:
                 closed_cb.add(int(m.group(1) or m.group(2)))
-        if t[0] == "close":
+        if in_handler:
             eng_closed.add(int(t[1]))
         if bad:
             break
     return bad
+
+
+def deliver_count(c, impl, dlv_ops):
+    """input distribution of the window / public-close shapes (into ctx.extra["delivery_op_distribution"])"""
+    def inc(k, n=1):
+        if n:
+            dlv_ops[k] = dlv_ops.get(k, 0) + n
+    if len(c["ops"][0].split()) > 6 and c["ops"][0].split()[6] == "0":
+        inc("histories with allowReadModeSwitch=false")
+    pending = {}
+    for op, got in zip(c["ops"][1:], impl[1:]):
+        w = op.split()
+        if len(w) > 4 and w[1] == "inside" and w[3] in WINDOW_ACTS:
+            inc("inside a close callback: %s" % {"tmode": "setReadMode on a helper thread", "trecv": "receiveSync on a helper thread",
+                                                 "mode": "setReadMode on the I/O thread (refused)", "recv": "receiveSync on the I/O thread (refused)"}[w[3]])
+        elif len(w) > 2 and w[1] == "tclose":
+            inc("tclose (public Transport::close)")
+        if len(w) > 2 and w[1] in ("close", "tclose"):
+            toks = got.split(",")
+            cb = [i for i, x in enumerate(toks) if re.match(r"^(G|O)%s\b" % w[2], x)]
+            if cb:
+                after = toks[cb[0] + 1:]
+                inc("window: setReadMode answered inside a close handler run", sum(1 for x in after if re.match(r"^M\d+[+-]$", x)))
+                inc("window: receiveSync answered inside a close handler run", sum(1 for x in after if re.match(r"^R\d+:[^!]", x)))
+                inc("window: refused on the I/O thread", sum(1 for x in after if x.endswith("!")))
+                inc("window: tail bytes still buffered when the handler ran (drained by a receiveSync inside it)", sum(1 for x in after if re.match(r"^R\d+:[0-9a-f]{2}", x)))
 
 
 def shrink_deliver(ctx, hb, ops):
@@ -529,13 +692,20 @@ def fan_monitor(c, impl):
         t = op.split()[1:]
         want = []
         if t[0] == "inside":
-            inside.append((t[1], t[2:]))
+            if t[2] not in WINDOW_ACTS:       # setReadMode / receiveSync inside a callback: judged by deliver_monitor (T3)
+                inside.append((t[1], t[2:]))
         elif t[0] == "getdata":
             want = ["D%d" % data.get(int(t[1]), (0, False))[0]]
+        elif t[0] == "csync":
+            want = ["S%d+" % int(t[1])]    # connectSync returns the id; no callback; the id's later close is an ordinary close (T2/T5)
         elif t[0] in DELIVER_OPS:
             continue        # judged by deliver_monitor (T3); T5 is about the close lines
-        elif t[0] == "close":
+        elif t[0] in ("close", "tclose"):
             sid = int(t[1])
+            # the answers of the calls scripted inside the callbacks are not T5's business
+            got = ",".join(x for x in got.split(",") if not re.match(r"^(M\d+[+\-!]|R\d+:.*|D\d+:[0-9a-f]*)$", x)) or "-"
+            if t[0] == "tclose":
+                want.append("X%d" % sid)      # the public close(sid) forwards the request to the engine and does nothing else
             if glob:
                 want.append("G%d" % sid)
                 run_inside("G", want)
@@ -631,6 +801,35 @@ def life_monitor(events, final_known=None, final_cur=None, ordered_ids=True):
     return bad
 
 
+def honour_monitor(parts):
+    """the F3 monitor on a list of (model op, observation, index) records - used by the shrinker (same rule as in check_stepped)"""
+    seen, closed, req, drained = set(), set(), {}, False
+    for op, obs, idx in parts:
+        if op is None:
+            continue
+        evs, _ = parse_obs(obs)
+        for k, sid, extra, _x in evs:
+            if k == "R" and extra.startswith("1") or k == "A":
+                seen.add(sid)
+            elif k == "K":
+                closed.add(sid)
+        k0 = op.split()[0]
+        if k0 == "apiclose":
+            s_ = int(op.split()[1])
+            if s_ in seen and s_ not in closed and not drained:
+                req.setdefault(s_, idx)
+        elif k0 in ("proc", "drainfinish") and req:
+            for s_ in sorted(req):
+                if s_ not in closed:
+                    return ["T2: close(%d) was accepted for an open id, the next complete process() did not close it" % s_]
+            req.clear()
+        if k0 == "drainfinish":
+            drained = True
+        elif k0 == "apistart":
+            drained = False
+    return []
+
+
 def parse_obs(obs):
     """'A1,D1,K1:Code/cls|a,c,k,cur' -> (events, cur)"""
     cbs, _, st = obs.partition("|")
@@ -715,12 +914,18 @@ def check_stepped(ctx, hb, res, dist):
         mi = a
         mism = None
         sites = {}
+        seen_ids, closed_ids, close_req, honour_fail, drained_flag = set(), set(), {}, None, [False]
+        tag_fail = None
         for op, obs, idx in parts:
             if op is None:
                 m = re.match(r"end known=(\S+) stats=(\S+)", obs)
                 if m:
                     final_known = [] if m.group(1) == "-" else [int(x) for x in m.group(1).split(",")]
                     final_cur = int(m.group(2).split(",")[3])
+                elif obs.startswith("tagbad") and tag_fail is None:
+                    tag_fail = "T3: the engine's fd-tag map is inconsistent after `%s` (%s): a kernel event on that fd would be dispatched to a session that is freed, closed or not its owner" % (c["ops"][min(idx, len(c["ops"]) - 1)], obs[7:200])
+                elif obs.startswith("tagchecks"):
+                    ctx.extra["fd_tag_invariant_checks"] = ctx.extra.get("fd_tag_invariant_checks", 0) + int(obs.split()[1])
                 elif obs.startswith("counters"):
                     # interposer fire / inject counts of the whole stepped run: `fn=fired/injected`
                     ctx.extra["interposers_fired_injected"] = dict(t.split("=") for t in obs.split()[1:])
@@ -738,6 +943,44 @@ def check_stepped(ctx, hb, res, dist):
             for k, sid, extra, _ in evs:
                 if k == "K":
                     sites[extra] = sites.get(extra, 0) + 1
+            # ---- F3 monitor (implementation output only): an ACCEPTED close() request is honoured.  After `apiclose s` on an id the
+            # application has seen (connect() returned it / accept callback) and that is still open, the next complete run of process()
+            # (`proc`; on the stop path the whole drain, judged at `drainfinish`) must have closed s: the Close was queued FIFO behind the
+            # id's own Connect, so process() finds the session (or the connect has failed and closed it).
+            kind0 = op.split()[0]
+            for k, sid, extra, _ in evs:
+                if k == "R" and extra.startswith("1"):
+                    seen_ids.add(sid)
+                elif k == "A":
+                    seen_ids.add(sid)
+                elif k == "K":
+                    closed_ids.add(sid)
+            if kind0 == "apiclose":
+                s_ = int(op.split()[1])
+                if s_ in seen_ids and s_ not in closed_ids and not drained_flag[0]:
+                    close_req.setdefault(s_, (op, idx))
+                    ctx.extra["close_requests_on_open_ids"] = ctx.extra.get("close_requests_on_open_ids", 0) + 1
+            elif kind0 in ("proc", "drainfinish") and close_req:
+                for s_, (cop, cidx) in sorted(close_req.items()):
+                    if s_ not in closed_ids and honour_fail is None:
+                        honour_fail = ("T2: close(%d) was accepted for an open id the application holds (script op %d), but the next complete process() "
+                                       "(`%s`) did not close it: the request was not honoured" % (s_, cidx, op[:60]))
+                close_req.clear()
+            if kind0 == "drainfinish":
+                drained_flag[0] = True
+            elif kind0 == "apistart":
+                drained_flag[0] = False
+            # ---- which close TRANSITIONS of the model the run went through (`~<site>` on the model's K tokens; stripped before comparing)
+            eng = "udp" if c["cat"] == "udp-stepped" else "tcp"
+            for tok in mo.split("|")[0].split(","):
+                if tok.startswith("K") and "~" in tok:
+                    sn = tok.rsplit("~", 1)[1]
+                    reach = ctx.extra.setdefault("close_sites_reached", {"tcp": {}, "udp": {}})[eng]
+                    reach[sn] = reach.get(sn, 0) + 1
+                    if c["id"].startswith(("tcp", "udp")) and c["id"][3:].isdigit():
+                        rr = ctx.extra.setdefault("close_sites_reached_by_random_cases", {"tcp": {}, "udp": {}})[eng]
+                        rr[sn] = rr.get(sn, 0) + 1
+            mo = re.sub(r"~[A-Za-z0-9.]+", "", mo)
             # ---- correspondence: same callbacks (with the close site's reason class), same gauges
             mcb, _, mrest = mo.partition("|")
             mstats = mrest.split(" ")[0]
@@ -751,6 +994,10 @@ def check_stepped(ctx, hb, res, dist):
             first = next((i for i, l in enumerate(lines) if l.startswith("crash:")), len(lines) - 1)
             fails.append("T0: the engine crashed (%s) in `%s`" % (crash, c["ops"][min(first, len(c["ops"]) - 1)]))
         fails += life_monitor(events, final_known, final_cur, ordered_ids=True)
+        if honour_fail:
+            fails.append(honour_fail)
+        if tag_fail:
+            fails.append(tag_fail)
         if env_in:
             # The kernel reported readable-without-writable for a plain socket whose connect callback is outstanding.  The harness
             # injects no such event (synthetic `ev` refuses it), so the engine's own epoll interest let it through: property failure.
@@ -807,9 +1054,13 @@ def report(ctx, hb, c, fails, lines, scn=False):
                 if evs and cur is not None:
                     evs[-1] = evs[-1][:3] + (cur,)
                 events += evs
-            f2 = life_monitor(events, fk, fc)
+            f2 = life_monitor(events, fk, fc) + honour_monitor(parts) + ["T3: the engine's fd-tag map is inconsistent" for op, obs, idx in parts if op is None and obs.startswith("tagbad")][:1]
             if rc not in (0,) and cls == "T0":
                 return True
+            if fails[0].startswith("T2: close("):
+                return any(f.startswith("T2: close(") for f in f2)
+            if fails[0].startswith("T3: the engine's fd-tag"):
+                return any(f.startswith("T3: the engine's fd-tag") for f in f2)
             return any(f.split(":")[0] == cls for f in f2)
         try:
             if still(ops):
@@ -827,9 +1078,10 @@ def run_scenarios(ctx, hb, rng, n, dist):
     ops = []
     for i in range(n):
         proto = "udp" if i % 3 == 2 else "tcp"
-        ops.append("scn %s seed=%d n=%d batch=%d et=%d stopms=%d racers=%d idle=%d cto=%d mwq=%d inj=%d nested=%d" %
+        ops.append("scn %s seed=%d n=%d batch=%d et=%d stopms=%d racers=%d idle=%d cto=%d mwq=%d inj=%d nested=%d restart=%d" %
                    (proto, rng.below(1 << 30), rng.range(3, 12), rng.below(2), 0 if rng.chance(1, 4) else 1, rng.choice([5, 15, 30, 60, 1200 if i % 17 == 5 else 20]),
-                    rng.choice([0, 1, 2, 3]), 1 if i % 17 == 5 else 0, rng.choice([200, 1000]), rng.choice([1, 2, 1024]), rng.choice([0, 0, 4, 40]), rng.below(2)))
+                    rng.choice([0, 1, 2, 3]), 1 if i % 17 == 5 else 0, rng.choice([200, 1000]), rng.choice([1, 2, 1024]), rng.choice([0, 0, 4, 40]), rng.below(2),
+                    (1 + i % 2) if i % 3 != 1 else 0))     # two thirds of the scenarios stop and START AGAIN (the real start()) once or twice
     out, rc, err = ctx.run_lines([hb], ops, timeout=900, env={"C02_CERT_DIR": certdir})
     if rc == 2:
         raise RuntimeError("harness machinery failure: %s" % err[-300:])
@@ -861,6 +1113,15 @@ def run_scenarios(ctx, hb, rng, n, dist):
         nev += len(events)
         final_cur = int(fin.split(",")[3]) if fin else None
         fails = life_monitor(events, known, final_cur, ordered_ids=False)
+        nrest = sum(1 for e in events if e[0] == "S" and e[2] == "restart")
+        ctx.extra["threaded_restarts"] = ctx.extra.get("threaded_restarts", 0) + nrest
+        if any(e[0] == "S" and e[2] == "restartFailed" for e in events):
+            fails.append("T0: start() on the stopped engine failed (restart)")
+        # T6 at every stop of the scenario, not only the last: the gauge read right after stop() returned
+        for e in events:
+            if e[0] == "S" and e[2] == "end" and e[3] not in (None, 0):
+                fails.append("T6: sessionsCurrent=%d after an orderly stop" % e[3])
+                break
         ctx.cov["traces_validated_against_impl"] += 1
         ctx.count_case(op, nontrivial=any(e[0] == "K" for e in events))
         if fails:
@@ -920,6 +1181,21 @@ def run(ctx: Ctx):
         res = run_stepped(ctx, hb, stepped, certdir)
         nm = check_stepped(ctx, hb, res, dist)
         ctx.log("stepped engines: %d histories, %d correspondence mismatches (%.1fs)" % (len(res), nm, time.time() - t))
+        if not ctx.replay:
+            # review F5: the evidence must PROVE which close transitions the correspondence run went through; a site of the model's tables
+            # (asked from the driver) that no case reached is a hole in the generator, i.e. a machinery failure - never silently accepted
+            so = ctx.run_lines(ctx.model_argv("life"), ["sites tcp", "sites udp"], timeout=60)[0]
+            reach = ctx.extra.setdefault("close_sites_reached", {"tcp": {}, "udp": {}})
+            missing = {}
+            for eng, line in zip(("tcp", "udp"), so):
+                for sn in line.split():
+                    reach[eng].setdefault(sn, 0)
+                    if reach[eng][sn] == 0 and sn not in ADMITTED_UNREACHED[eng]:
+                        missing.setdefault(eng, []).append(sn)
+            ctx.extra["close_sites_never_reached"] = missing
+            ctx.extra["close_sites_admitted_unreachable"] = {k: sorted(v) for k, v in ADMITTED_UNREACHED.items()}
+            if missing and not ctx.violations:
+                raise RuntimeError("close sites of the model never reached by the correspondence run: %s" % missing)
         # ---- fan-out lockstep
         if not ctx.replay:
             r3 = rng.fork("fan")
@@ -934,6 +1210,7 @@ def run(ctx: Ctx):
                 ctx.count_case("\n".join(c["ops"]), nontrivial=any(l not in ("-", "bad-op") for l in impl))
                 fails = fan_monitor(c, impl)
                 dfails = deliver_monitor(c, impl)
+                deliver_count(c, impl, dlv_ops)
                 if any(op.split()[1] in DELIVER_OPS for op in c["ops"][1:] if len(op.split()) > 1):
                     dist["fanout-delivery"] = dist.get("fanout-delivery", 0) + 1
                     for op in c["ops"][1:]:
@@ -1001,16 +1278,25 @@ def run(ctx: Ctx):
     ctx.extra["delivery_op_distribution"] = dlv_ops if hb else {}
     ctx.extra["repo_tree_sha"] = ctx.repo_tree_sha(ANCHOR_FILES)
     ctx.extra["not_proved"] = [
-        "T3 at the Transport level (T3_no_delivery_after_close_transport) is about SEQUENTIAL histories: every engine callback and every setReadMode / receiveSync call runs to "
-        "completion before the next starts. A Sync->Async flush that is in progress on an application thread while the I/O thread runs the close handler (the flush has taken bytes "
+        "T3 at the Transport level (T3_no_delivery_after_close_transport) covers histories of COMPLETE calls: every engine callback half (closeMark / closeCbs) and every "
+        "setReadMode / receiveSync call runs to completion before the next op starts; complete application calls INSIDE a close handler run (between the mark and the callbacks, "
+        "on another thread) are covered since repair FC03c. A Sync->Async flush already IN PROGRESS on an application thread while the I/O thread runs the close handler (the flush has taken bytes "
         "under the lock, or keeps draining chunks that arrived during its own callback) can still hand those bytes to the data callback after the close callback - the window C03 "
         "models as flushTake/flushDeliver; closing it needs the close handler to wait for the flusher or the flusher to drop data, neither of which is a small repair. connectSync "
         "suppression (pendingConnects, C04) and teardown (shuttingDown) are outside this piece of model",
         "T3c on TCP (`data only after the connect callback`) is proved for histories whose INPUTS honour Tcp.envOkHistory (the kernel offers no payload to a plain client socket "
         "before reporting its connect completion); that the engine keeps EPOLLOUT registered so that the kernel can honour it is tied by the translated updateInterest/addEpoll "
         "skeleton and checked on the real engine by the unconditional monitor `no data before announce` - not proved about epoll itself. T3a/T3b and T3c on UDP carry no hypothesis",
-        "T2 while running is the SAFETY rendering only (every open id is still pending in the queue or live in the table); that a running engine eventually processes its queue "
-        "is a liveness fact of the I/O loop and is not stated. `Exactly one close` is proved at the end of an orderly stop",
+        "T2 while running: the SAFETY rendering (every open id is still pending in the queue or live in the table) plus `an accepted close() request is honoured` "
+        "(T2_close_request_honoured: once the I/O thread has taken every queued command the id is closed); that a running engine eventually processes its queue is a liveness "
+        "fact of the I/O loop and is not stated. `Exactly one close` for ids nobody closes is proved at the end of an orderly stop",
+        "fd reuse (review F6b): the lifecycle model keys I/O events by session id; which session an event on an fd NUMBER reaches is a separate layer "
+        "(Model/FdTags.lean: insert / closeNow / drain over kernel-reused fd numbers) with its own theorems (fd_tags_point_at_live_owner, fd_tags_cover_open_sessions, "
+        "F35_refuted). The two layers are not composed by a refinement theorem: their tie is the translator fact drainErasesTags the FdTags instance is defined from, the stepped "
+        "harness labelling every real event through the engine's own tag map, and the tag-invariant monitor evaluated on the REAL engine after every stepped op "
+        "(fd_tag_invariant_checks in the evidence); `emplace does not overwrite` and `closeNow erases the tag` are read off the source by hand, not regenerated",
+        "the Role column of the site tables (which model transition plays a source site) is checked by the correspondence run (every close site reached at least once, per-site "
+        "counters in close_sites_reached) and by the bijection theorem, not by a theorem that relates the C++ function name to the model function",
         "T6: the gauge is compared at handler boundaries. closeNow() decrements sessionsCurrent BEFORE it calls the close callback, so inside onClose (and for a concurrent getStats()) "
         "the closing session is already not counted; the model's gauge equation is about states between handlers, the monitor's `never under-counts announced open sessions` is "
         "evaluated after each callback batch",
@@ -1022,8 +1308,12 @@ def run(ctx: Ctx):
     ]
     ctx.assumptions += [
         "callbacks are installed before the engine starts (Transport::Impl::setupEngineCallbacks always installs all five)",
-        "no exception escapes a callback or a handler (TcpEngine::process catches and reports; a throwing callback can skip a close)",
-        "stop() followed by start() on the same engine instance is inside the model (apiStart after a completed drain); destroying an engine is not",
+        "no exception escapes an application callback; of the engine's own calls the one that can throw in a handler after connect() has returned the id - std::async in "
+        "doConnect (resolver thread cannot be created) - is modelled (answer `throw`, close site resolveThrow, repair FC02b); bad_alloc in a handler is not modelled",
+        "stop() followed by start() on the same engine instance is inside the MODEL (apiStart after a completed drain). Its tie to the source: the start() call skeletons "
+        "(queue re-opened, fresh loop, maps and id counter untouched), the census `_nextSessionId has no use besides its declaration and the post-increments`, and the threaded "
+        "scenarios that call the REAL start() after stop() once or twice (T1/T2/T4/T6 monitors across the restart); the stepped acceptor replays start() by hand (manualStart). "
+        "Destroying an engine is not modelled",
         "kernel, OpenSSL and clocks are inputs of the model (answer lists): which event/answer follows which is not verified, except that the stepped harness never "
         "fabricates `readable without writable` for a plain socket whose connect callback is outstanding (the environment contract Tcp.envOk)",
         "the stepped acceptor derives three inputs from the implementation's own callbacks rather than independently: which sessions a GC pass picked (the ids it closed with "
